@@ -87,15 +87,21 @@ func (r *Run) Sched() *simrt.Chooser {
 func (r *Run) SetSched(c *simrt.Chooser) { r.sched = c }
 func (r *Run) ResetSteps()               { r.steps0 = r.W.Step() }
 
-// Settle waits until every goroutine of the bubble is durably blocked.
-func (r *Run) Settle() { synctest.Wait() }
+// Settle waits until every goroutine of the bubble is durably blocked, then writes the connection events of
+// that period into the event log in canonical order.
+func (r *Run) Settle() {
+	synctest.Wait()
+	if r.Net != nil {
+		r.Net.FlushEvents()
+	}
+}
 
 // Advance moves virtual time forward by d (timers due in between fire in order).
 func (r *Run) Advance(d time.Duration) {
 	if d > 0 {
 		time.Sleep(d)
 	}
-	synctest.Wait()
+	r.Settle()
 }
 
 // BeginStep draws the per-step salt and publishes it; returns false when the step cap is hit.
